@@ -16,6 +16,7 @@ MEX runtime and the GTSAM stand-ins, and executes tape-generated op scripts.
 R1/R2 are input sampling riding in the same driver; R3-R5 are the simulated histories.
 """
 import hashlib
+import re
 import os
 import shutil
 import struct
@@ -38,7 +39,8 @@ NONNUMERIC = (1, 2, 3, 4)
 PROBES = ["nonscalar_to_scalar", "nonnumeric_to_vector_or_matrix", "empty_vector", "empty_matrix",
           "nan_or_inf_or_negzero", "negative_int", "size_t_above_2_63", "virtual_path_with_rtti",
           "virtual_path_rtti_cleared", "same_object_two_handles", "unwrap_ptr_called", "unload_with_live_handles",
-          "delete_last_reference", "string_roundtrip", "derived_wrapped_as_base"]
+          "delete_last_reference", "string_roundtrip", "derived_wrapped_as_base",
+          "handle_address_recycled", "handle_address_recycled_by_another_class"]
 
 
 def batches(tier):
@@ -189,6 +191,7 @@ class Model:
         self.slots = {}      # slot -> dict
         self.held = {}       # hid -> serial
         self.derived = {}    # serial -> bool
+        self.other = {}      # serial -> bool: an instance of the second, unrelated class
         self.next_slot = 1
         self.next_held = 1
         self.next_serial = 1
@@ -217,7 +220,8 @@ def gen_script(t):
         if vals:
             choices += [("unwrap-same", 6), ("unwrap-other", 4), ("free", 1)]
         if md.held:
-            choices += [("wsp", 4), ("drop", 2)]
+            # right after a handle was deleted its heap block is the allocator's next candidate: wrap again at once
+            choices += [("wsp", 16 if ops and ops[-2][1]["op"] == "del" else 4), ("drop", 2)]
         if objs:
             choices += [("usp", 4), ("uptr", 2), ("del", 2)]
         choices += [("rtti", 1), ("unload", 0.4)]
@@ -281,12 +285,13 @@ def gen_script(t):
             del md.slots[s]
             ops.append(("free %d" % s, {"op": "free"}))
         elif op == "new":
-            which = 1 if t.bool(0.4, "derived") else 0
+            which = t.wpick([(0, 4), (1, 3), (2, 3)], "class")      # Obj, Derived (an Obj), Other (unrelated)
             h, ser = md.next_held, md.next_serial
             md.next_held += 1
             md.next_serial += 1
             md.held[h] = ser
-            md.derived[ser] = bool(which)
+            md.derived[ser] = which == 1
+            md.other[ser] = which == 2
             md.created.add(ser)
             ops.append(("new %d" % which, {"op": "new", "hid": h, "serial": ser}))
         elif op == "wsp":
@@ -299,7 +304,7 @@ def gen_script(t):
             else:
                 s = md.next_slot
                 md.next_slot += 1
-                cls = (DERIVED_MATLAB_NAME if md.derived[ser] else "Obj") if virt else "Obj"
+                cls = "Other" if md.other[ser] else ((DERIVED_MATLAB_NAME if md.derived[ser] else "Obj") if virt else "Obj")
                 md.slots[s] = {"kind": "object", "serial": ser, "cls": cls}
                 e.update(expect="object", slot=s, cls=cls)
             ops.append(("wsp %d %d" % (h, virt), e))
@@ -530,6 +535,12 @@ def run_one(batch, tape, ctx):
     elif rc2 == 0 and lines2 != lines and not viol:
         viol.append({"inv": "R5", "sig": "R5:build-dependent-result",
                      "detail": "the ASan build printed different results than the plain build (uninitialised data?)"})
+    mrec = re.search(r"probe recycled=(\d+) recycled_other_class=(\d+)", err)
+    if mrec:
+        if int(mrec.group(1)):
+            probes["handle_address_recycled"] = 1
+        if int(mrec.group(2)):
+            probes["handle_address_recycled_by_another_class"] = 1
     digest = hashlib.sha256((script + "\n".join(lines)).encode()).hexdigest()
     nh = sum(1 for c, e in ops if e["op"] in ("wsp", "usp", "uptr", "del", "drop", "unload"))
     ne = sum(1 for c, e in ops if e.get("expect") == "error")
